@@ -57,7 +57,7 @@ def main(run):
         nviol[0] += 1
         if nviol[0] > 2: return None
         try:
-            return core.to_ferret(core.shrink(p, differs, max_tests=60))
+            return core.to_ferret(core.shrink(p, differs, max_tests=24))
         except Exception as e:
             return "(shrinking failed: %r)" % (e,)
     # source-level corpus (features outside FerretCore: no reference leg): former disagreements, replayed first
